@@ -248,36 +248,19 @@ Proof.
     destruct pc; try discriminate. inversion St; subst; clear St.
     assert (NM : mid (r s) = false) by (eapply not_mid_if_not_quiet; [exact I|exact Ht|reflexivity]).
     assert (Ei : i = active s) by (eapply (J1 _ I); [exact Ht|reflexivity]). subst i.
-    pose proof (live_active _ NM) as LA.
     pose proof (J4 _ I _ _ _ Ht eq_refl) as Lk.
-    destruct k as [|k].
-    + (* before the first chunk: the number is used up (GAP entry) *)
-      constructor; cbn -[consecutive_rev].
-      * intros t' pc i0 H Hi. nth_cases H t' t; [cbn in Hi; congruence|eapply (J1 _ I); eassumption].
-      * intro M. congruence.
-      * exact (J2g _ I).
-      * pose proof (count_upd in_flight _ _ _ (SWritten (active s)) Ht) as C. cbn in C. rewrite (J3 _ I). lia.
-      * intros t' pc i0 H Hi. nth_cases H t' t; [cbn in Hi; inversion Hi; subst; exact Lk|eapply (J4 _ I); eassumption].
-      * exact (J5 _ I).
-      * exact (J5a _ I).
-      * exact (J5b _ I).
-      * exact (J5c _ I).
-      * destruct (wire_rev s) as [|p rest] eqn:W; [reflexivity|].
-        rewrite consec_cons. cbn [c_seq]. rewrite (J6h _ I _ _ W), LA, Z.eqb_refl. pose proof (J6 _ I) as X. rewrite W in X. exact X.
-      * intros c rest Hw. inversion Hw; subst; clear Hw. cbn.
-        unfold live. cbn. fold (live s). rewrite LA. unfold updI. rewrite Nat.eqb_refl. reflexivity.
-    + constructor; cbn.
-      * intros t' pc i0 H Hi. nth_cases H t' t; [cbn in Hi; congruence|eapply (J1 _ I); eassumption].
-      * intro M. congruence.
-      * exact (J2g _ I).
-      * pose proof (count_upd in_flight _ _ _ (SWritten (active s)) Ht) as C. cbn in C. rewrite (J3 _ I). lia.
-      * intros t' pc i0 H Hi. nth_cases H t' t; [cbn in Hi; inversion Hi; subst; exact Lk|eapply (J4 _ I); eassumption].
-      * exact (J5 _ I).
-      * exact (J5a _ I).
-      * exact (J5b _ I).
-      * exact (J5c _ I).
-      * exact (J6 _ I).
-      * exact (J6h _ I).
+    constructor; cbn.
+    + intros t' pc i0 H Hi. nth_cases H t' t; [cbn in Hi; congruence|eapply (J1 _ I); eassumption].
+    + intro M. congruence.
+    + exact (J2g _ I).
+    + pose proof (count_upd in_flight _ _ _ (SWritten (active s)) Ht) as C. cbn in C. rewrite (J3 _ I). lia.
+    + intros t' pc i0 H Hi. nth_cases H t' t; [cbn in Hi; inversion Hi; subst; exact Lk|eapply (J4 _ I); eassumption].
+    + exact (J5 _ I).
+    + exact (J5a _ I).
+    + exact (J5b _ I).
+    + exact (J5c _ I).
+    + exact (J6 _ I).
+    + exact (J6h _ I).
   - (* EUnlockI *)
     unfold sstep in St. destruct (nth_error (ss s) t) as [pc|] eqn:Ht; try discriminate.
     destruct pc; try discriminate. inversion St; subst; clear St.
@@ -400,56 +383,9 @@ Qed.
 Lemma reachableP_inv : forall P a b s, reachableP P a b s -> inv s.
 Proof. intros P a b s [evs R]. eapply runP_inv; [apply inv_init|exact R]. Qed.
 
-(* EVERY run: every entry of the send log (chunks and GAP entries) carries the successor of the one before it *)
-Lemma log_consecutive_full : forall a b s, reachable a b s -> consecutive_rev (wire_rev s) = true.
+(* EVERY run: every chunk on the wire carries the successor of the number of the chunk before it *)
+Lemma wire_consecutive_full : forall a b s, reachable a b s -> consecutive_rev (wire_rev s) = true.
 Proof. intros a b s R. exact (J6 _ (reachableP_inv _ _ _ _ R)). Qed.
-
-(* ---------------------------------------------------------------- no GAP entries without an early failure *)
-
-Lemma step_visible : forall s e s', forallb visible (wire_rev s) = true -> no_early_fail s e = true ->
-  step s e = Some s' -> forallb visible (wire_rev s') = true.
-Proof.
-  intros s e s' F Ok St.
-  destruct e; cbn in St; try (unfold sstep in St; destruct (nth_error (ss s) t) as [pc|] eqn:Ht; [|discriminate]; destruct pc; try discriminate).
-  - inversion St; subst. exact F.
-  - destruct (gate s); try discriminate. inversion St; subst. exact F.
-  - inversion St; subst. exact F.
-  - inversion St; subst. exact F.
-  - destruct (ilock s i); try discriminate. inversion St; subst. exact F.
-  - inversion St; subst. cbn. rewrite F. reflexivity.
-  - cbn in Ok. rewrite Ht in Ok. destruct k; [cbn in Ok; discriminate|]. inversion St; subst. exact F.
-  - inversion St; subst. exact F.
-  - inversion St; subst. exact F.
-  - destruct (r s); try discriminate. inversion St; subst. exact F.
-  - destruct (r s); try discriminate. inversion St; subst. exact F.
-  - destruct (r s); try discriminate. destruct (Nat.eqb (pending s) 0); try discriminate. inversion St; subst. exact F.
-  - destruct (r s); try discriminate. destruct (ilock s i); try discriminate. inversion St; subst. exact F.
-  - destruct (r s); try discriminate. inversion St; subst. exact F.
-  - destruct (r s); try discriminate. inversion St; subst. cbn. rewrite F. reflexivity.
-  - destruct (r s); try discriminate. inversion St; subst. exact F.
-  - destruct (r s); try discriminate. inversion St; subst. exact F.
-  - destruct (r s); try discriminate; inversion St; subst; exact F.
-Qed.
-
-Lemma filter_all : forall A (f : A -> bool) l, forallb f l = true -> filter f l = l.
-Proof. induction l as [|x l IH]; cbn; intro H; [reflexivity|]. apply andb_true_iff in H. destruct H as [H1 H2]. rewrite H1, IH by exact H2. reflexivity. Qed.
-
-Lemma all_visible_no_early_fail : forall a b s, reachableP no_early_fail a b s -> wire_rev_visible s = wire_rev s.
-Proof.
-  intros a b s [evs R]. unfold wire_rev_visible. apply filter_all.
-  revert R. assert (F0 : forallb visible (wire_rev (init a b)) = true) by reflexivity. revert F0. generalize (init a b).
-  induction evs as [|e rest IH]; cbn; intros s0 F R.
-  - inversion R; subst; exact F.
-  - destruct (no_early_fail s0 e) eqn:Ok; try discriminate. destruct (step s0 e) eqn:E; try discriminate.
-    eapply IH; [eapply step_visible; eassumption|exact R].
-Qed.
-
-(* on the runs without an early failure the chunks on the connection carry consecutive numbers *)
-Lemma wire_consecutive_partial : forall a b s, reachableP no_early_fail a b s -> consecutive_rev (wire_rev_visible s) = true.
-Proof.
-  intros a b s R. rewrite (all_visible_no_early_fail _ _ _ R).
-  destruct R as [evs R]. exact (J6 _ (runP_inv _ _ _ _ (inv_init a b) R)).
-Qed.
 
 (* ---------------------------------------------------------------- messages are never interleaved (every run) *)
 
@@ -458,7 +394,7 @@ Definition wrote (pc : spc) : bool :=
 
 Record inv3 (s : st) : Prop := {
   K1 : contiguous_rev (wire_rev s) = true;
-  K2 : forall c t, In c (wire_rev s) -> c_owner c = OwnS t \/ c_owner c = OwnGap t ->
+  K2 : forall c t, In c (wire_rev s) -> c_owner c = OwnS t ->
        exists pc, nth_error (ss s) t = Some pc /\ wrote pc = true;
   K3 : forall t n i id k, nth_error (ss s) t = Some (SWriting n i id (S k)) ->
        exists c rest, wire_rev s = c :: rest /\ c_owner c = OwnS t;
@@ -466,7 +402,7 @@ Record inv3 (s : st) : Prop := {
 
 Lemma owner_eqb_eq : forall x y, owner_eqb x y = true <-> x = y.
 Proof.
-  intros [x|x|x] [y|y|y]; cbn; split; intro H; try discriminate; try (apply Nat.eqb_eq in H; congruence);
+  intros [x|x] [y|y]; cbn; split; intro H; try discriminate; try (apply Nat.eqb_eq in H; congruence);
     inversion H; subst; apply Nat.eqb_refl.
 Qed.
 
@@ -512,17 +448,14 @@ Proof.
   - exact (K4 _ K).
 Qed.
 
-(* sender t, holding the lock of the active instance with k entries written, appends one entry owned by it *)
-Lemma inv3_emit : forall s t n id k final o pc',
+(* sender t, holding the lock of the active instance with k chunks written, writes one more *)
+Lemma inv3_emit : forall s t n id k final pc',
   inv s -> inv3 s -> nth_error (ss s) t = Some (SWriting n (active s) id k) ->
-  (o = OwnS t /\ (final = false -> pc' = SWriting n (active s) id (S k)) /\ wrote pc' = true \/
-   o = OwnGap t /\ k = 0%nat /\ pc' = SWritten (active s)) ->
+  (final = false -> pc' = SWriting n (active s) id (S k)) -> wrote pc' = true ->
   (forall n' i' id' k', pc' = SWriting n' i' id' (S k') -> final = false) ->
-  inv3 (set_ss (emit s (active s) id final false o) (upd_nth (ss s) t pc')).
+  inv3 (set_ss (emit s (active s) id final false (OwnS t)) (upd_nth (ss s) t pc')).
 Proof.
-  intros s t n id k final o pc' I K Ht Ho Hf.
-  assert (Wp : wrote pc' = true) by (destruct Ho as [(_ & _ & W)|(_ & _ & ->)]; [exact W|reflexivity]).
-  assert (Ot : o = OwnS t \/ o = OwnGap t) by (destruct Ho as [(E & _)|(E & _)]; auto).
+  intros s t n id k final pc' I K Ht Hn Wp Hf.
   pose proof (J4 _ I _ _ _ Ht eq_refl) as Lk.
   constructor; cbn -[contiguous_rev].
   - rewrite contig_unfold. rewrite (K1 _ K), andb_true_r. unfold contig_head.
@@ -531,26 +464,23 @@ Proof.
     + (* nothing written by t so far: the owner is fresh *)
       rewrite fresh_owner; [apply orb_true_r|].
       intros q Hq Eq. rewrite <- W in Hq.
-      assert (Oq : c_owner q = OwnS t \/ c_owner q = OwnGap t) by (rewrite Eq; exact Ot).
-      destruct (K2 _ K q t Hq Oq) as (pc0 & H0 & W0). rewrite Ht in H0. inversion H0; subst. discriminate.
+      destruct (K2 _ K q t Hq Eq) as (pc0 & H0 & W0). rewrite Ht in H0. inversion H0; subst. discriminate.
     + (* t continues its own message *)
-      destruct Ho as [(-> & _)|(_ & E & _)]; [|discriminate].
       destruct (K3 _ K _ _ _ _ _ Ht) as (c0 & r0 & E0 & O0). rewrite W in E0. inversion E0; subst.
       rewrite O0. cbn. rewrite Nat.eqb_refl. reflexivity.
   - intros c t0 [Hc|Hc] Hown.
-    + subst c. cbn in Hown. assert (t0 = t) by (destruct Ot as [->| ->]; destruct Hown as [X|X]; inversion X; reflexivity). subst t0.
+    + subst c. cbn in Hown. inversion Hown; subst t0.
       exists pc'. split; [eapply nth_upd_same; exact Ht|exact Wp].
     + destruct (K2 _ K c t0 Hc Hown) as (pc0 & H0 & W0). destruct (Nat.eq_dec t0 t) as [->|NE].
       * exists pc'. split; [eapply nth_upd_same; exact Ht|exact Wp].
       * exists pc0. split; [rewrite nth_upd_other by exact NE; exact H0|exact W0].
   - intros t0 n0 i0 id0 k0 H. destruct (Nat.eq_dec t0 t) as [->|NE].
-    + erewrite nth_upd_same in H by exact Ht. inversion H as [E]. eexists. eexists. split; [reflexivity|]. cbn.
-      destruct Ho as [(-> & _)|(_ & _ & ->)]; [reflexivity|discriminate].
+    + erewrite nth_upd_same in H by exact Ht. eexists. eexists. split; reflexivity.
     + rewrite nth_upd_other in H by exact NE. exfalso.
       assert (Ei : i0 = active s) by (eapply (J1 _ I); [exact H|reflexivity]). subst i0.
       pose proof (J4 _ I _ _ _ H eq_refl) as Lk0. rewrite Lk in Lk0. inversion Lk0. congruence.
   - intros c n0 [Hc|Hc] Hown.
-    + subst c. cbn in Hown. destruct Ot as [->| ->]; discriminate.
+    + subst c. cbn in Hown. discriminate.
     + exact (K4 _ K c n0 Hc Hown).
 Qed.
 
@@ -577,15 +507,12 @@ Proof.
     sender_case St. inversion St; subst; clear St.
     assert (Ei : i = active s) by (eapply (J1 _ I); [exact Ht|reflexivity]). subst i.
     eapply inv3_emit; try eassumption.
-    + left. split; [reflexivity|]. split; [intro E; rewrite E; reflexivity|]. destruct (Nat.eqb k n); reflexivity.
+    + intro E; rewrite E; reflexivity.
+    + destruct (Nat.eqb k n); reflexivity.
     + intros n' i' id' k' E. destruct (Nat.eqb k n); [discriminate|reflexivity].
   - (* EFail *)
-    sender_case St. destruct k as [|k]; inversion St; subst; clear St.
-    + assert (Ei : i = active s) by (eapply (J1 _ I); [exact Ht|reflexivity]). subst i.
-      eapply inv3_emit; try eassumption.
-      * right. repeat split; reflexivity.
-      * intros; discriminate.
-    + eapply (inv3_sender_frame s); try eassumption; try reflexivity; try (intros _; reflexivity); try (intros; discriminate).
+    sender_case St. inversion St; subst; clear St.
+    eapply (inv3_sender_frame s); try eassumption; try reflexivity; try (intros _; reflexivity); try (intros; discriminate).
   - sender_case St. inversion St; subst; clear St.
     eapply (inv3_sender_frame s); try eassumption; try reflexivity; try (intros _; reflexivity); try (intros; discriminate).
   - sender_case St. inversion St; subst; clear St.
@@ -603,7 +530,7 @@ Proof.
       destruct (wire_rev s) as [|p rest] eqn:W; [reflexivity|]. cbn [c_owner].
       rewrite fresh_owner; [apply orb_true_r|]. intros q Hq Eq. rewrite <- W in Hq.
       pose proof (K4 _ K q _ Hq Eq). lia.
-    + intros c t [Hc|Hc] Ho; [subst c; cbn in Ho; destruct Ho; discriminate|exact (K2 _ K c t Hc Ho)].
+    + intros c t [Hc|Hc] Ho; [subst c; cbn in Ho; discriminate|exact (K2 _ K c t Hc Ho)].
     + intros t n i0 id0 k H. pose proof (J2 _ I M _ _ H). discriminate.
     + intros c n [Hc|Hc] Ho; [subst c; cbn in Ho; inversion Ho; lia|pose proof (K4 _ K c n Hc Ho); lia].
   - destruct (r s); try discriminate. inversion St; subst. destruct K; constructor; assumption.
@@ -622,34 +549,8 @@ Proof.
   exact (G evs _ _ (inv_init a b) (inv3_init a b) R).
 Qed.
 
-(* the property survives dropping the GAP entries: what is on the connection is never interleaved either *)
-Lemma existsb_filter_sub : forall (f g : chunk -> bool) l, existsb f (filter g l) = true -> existsb f l = true.
-Proof.
-  induction l as [|x l IH]; cbn; intro H; [exact H|]. destruct (g x); cbn in H.
-  - apply orb_true_iff in H. destruct H as [H|H]; [rewrite H; reflexivity|rewrite (IH H); apply orb_true_r].
-  - rewrite (IH H). apply orb_true_r.
-Qed.
-
-Lemma contig_filter : forall w, contiguous_rev w = true -> contiguous_rev (filter visible w) = true.
-Proof.
-  induction w as [|c w IH]; [reflexivity|]. intro H. rewrite contig_unfold in H. apply andb_true_iff in H. destruct H as [H1 H2].
-  cbn [filter]. destruct (visible c) eqn:V; [|exact (IH H2)].
-  rewrite contig_unfold, (IH H2), andb_true_r. unfold contig_head in *.
-  destruct w as [|p w']; [reflexivity|].
-  destruct (filter visible (p :: w')) as [|p' f'] eqn:F; [reflexivity|].
-  apply orb_true_iff in H1. destruct H1 as [H1|H1].
-  - (* same message as p: p is a real chunk too, so it is still the predecessor *)
-    apply owner_eqb_eq in H1. assert (Vp : visible p = true) by (unfold visible in *; rewrite <- H1; exact V).
-    cbn [filter] in F. rewrite Vp in F. inversion F; subst. rewrite H1. 
-    assert (E : owner_eqb (c_owner p') (c_owner p') = true) by (apply owner_eqb_eq; reflexivity). rewrite E. reflexivity.
-  - apply negb_true_iff in H1. rewrite <- F.
-    destruct (existsb (fun q => owner_eqb (c_owner q) (c_owner c)) (filter visible (p :: w'))) eqn:E.
-    + apply existsb_filter_sub in E. congruence.
-    + apply orb_true_r.
-Qed.
-
-Lemma wire_contiguous_full : forall a b s, reachable a b s -> contiguous_rev (wire_rev_visible s) = true.
-Proof. intros a b s R. apply contig_filter. exact (K1 _ (reachable_inv3 _ _ _ _ R)). Qed.
+Lemma wire_contiguous_full : forall a b s, reachable a b s -> contiguous_rev (wire_rev s) = true.
+Proof. intros a b s R. exact (K1 _ (reachable_inv3 _ _ _ _ R)). Qed.
 
 (* the sequence counter step: +1, wrapping to 1 above 2^32 - 1024 (Part 6, 6.7.2.4).
    (x = 2^32 - 1 itself is not a value the counter can take: every step yields at most 2^32 - 1024.) *)
@@ -677,9 +578,7 @@ Proof.
   - sender_case St. inversion St; subst; clear St.
     assert (Ei : i = active s) by (eapply (J1 _ I); [exact Ht|reflexivity]). subst i.
     cbn. rewrite F. unfold not_superseded. cbn. rewrite Nat.leb_refl. reflexivity.
-  - sender_case St. inversion St; subst; clear St. destruct k; [|exact F].
-    assert (Ei : i = active s) by (eapply (J1 _ I); [exact Ht|reflexivity]). subst i.
-    cbn. rewrite F. unfold not_superseded. cbn. rewrite Nat.leb_refl. reflexivity.
+  - sender_case St. inversion St; subst. exact F.
   - sender_case St. inversion St; subst. exact F.
   - sender_case St. inversion St; subst. exact F.
   - destruct (r s); try discriminate. inversion St; subst. exact F.
@@ -740,17 +639,7 @@ Proof.
     + cbn -[tokens_monotone_rev]. destruct (wire_rev s) as [|p rest] eqn:W; [reflexivity|].
       rewrite mono_cons. cbn [c_inst]. rewrite A, andb_true_r. apply Nat.leb_le. rewrite <- LA. eapply B; reflexivity.
     + intros c rest H. cbn in H. inversion H; subst. cbn [c_inst]. rewrite L'. apply Nat.le_refl.
-  - (* EFail *)
-    sender_case St. inversion St; subst; clear St. destruct k as [|k]; [|apply (inv2_frame s); [reflexivity|reflexivity|exact I2]].
-    assert (NM : mid (r s) = false) by (eapply not_mid_if_not_quiet; [exact I|exact Ht|reflexivity]).
-    assert (Ei : i = active s) by (eapply (J1 _ I); [exact Ht|reflexivity]). subst i.
-    pose proof (live_active _ NM) as LA. destruct I2 as [A B].
-    assert (L' : forall pc', live (set_ss (emit s (active s) id true false (OwnGap t)) pc') = active s)
-      by (intro; unfold live; cbn; fold (live s); exact LA).
-    split.
-    + cbn -[tokens_monotone_rev]. destruct (wire_rev s) as [|p rest] eqn:W; [reflexivity|].
-      rewrite mono_cons. cbn [c_inst]. rewrite A, andb_true_r. apply Nat.leb_le. rewrite <- LA. eapply B; reflexivity.
-    + intros c rest H. cbn in H. inversion H; subst. cbn [c_inst]. rewrite L'. apply Nat.le_refl.
+  - sender_case St. inversion St; subst. apply (inv2_frame s); [reflexivity|reflexivity|exact I2].
   - sender_case St. inversion St; subst. apply (inv2_frame s); [reflexivity|reflexivity|exact I2].
   - sender_case St. inversion St; subst. apply (inv2_frame s); [reflexivity|reflexivity|exact I2].
   - destruct (r s) eqn:R; try discriminate. inversion St; subst. apply (inv2_frame s); [reflexivity|unfold live; cbn; rewrite R; reflexivity|exact I2].
